@@ -54,6 +54,9 @@ func wirePool(a *aspec.ASpec) {
 			a.Schemas = append(a.Schemas, aspec.NamedSchema{Name: "Arr" + strings.Title(t), Schema: aspec.Schema{K: "array", Items: &aspec.Schema{K: t}}})
 		}
 	}
+	// an array component reached through two aliases (declared before and after what they point to)
+	a.Schemas = append(a.Schemas, aspec.NamedSchema{Name: "ZzIdsOnce", Schema: aspec.Schema{K: "ref", To: "ArrInt64"}},
+		aspec.NamedSchema{Name: "AaIdsTwice", Schema: aspec.Schema{K: "ref", To: "ZzIdsOnce"}})
 	// header components whose keys coincide with header names used elsewhere for other declarations
 	a.Headers = append(a.Headers,
 		aspec.NamedHeader{Name: "Location", Header: aspec.Header{Name: "Location", Req: true, Schema: aspec.Schema{K: "int32"}}},
@@ -134,6 +137,17 @@ func randHeaders(a *aspec.ASpec, rng *rand.Rand) (out []aspec.Header) {
 			has = has || nh.Name == "LocationHint"
 		}
 		if !has || rng.Intn(4) != 0 {
+			return
+		}
+		if rng.Intn(3) == 0 {
+			// a list header whose schema reaches the array through a chain of aliases
+			dup := false
+			for _, h := range out {
+				dup = dup || http.CanonicalHeaderKey(h.Name) == "X-Ids"
+			}
+			if !dup {
+				out = append(out, aspec.Header{Name: "X-Ids", Req: rng.Intn(2) == 0, Schema: aspec.Schema{K: "ref", To: []string{"AaIdsTwice", "ZzIdsOnce", "ArrInt64"}[rng.Intn(3)]}})
+			}
 			return
 		}
 		add := []aspec.Header{{Name: "Location", Ref: "LocationHint"}, {Name: "X-Loc", Ref: "Location"}, {Name: "Age", Ref: "AgeSeconds"}, {Name: "X-Since", Ref: "Age"}}[rng.Intn(4)]
